@@ -180,6 +180,34 @@ def program(rng, pid, shape=None, profile="full", nstmts=(0, 3), asserts=True, n
         bld.edge(b2, h2)
         bld.edge(l1, h1)
         entry, exit_ = e, x
+    elif shape == "irreducible" and R.random() < 0.4:
+        # both entries of the irreducible loop {a, b} go through their own pre-block; one of the pre-blocks is often
+        # INFEASIBLE (the loop is then entered only through the other block, whichever of the two the WTO picks as head)
+        e, pa, pb, a, b_, x = (bld.block(body()), bld.block([]), bld.block([]), bld.block(body()), bld.block(body()), bld.block(body()))
+        bld.blocks[a - 1]["stmts"].append(bld.counter_step())
+        if R.random() < 0.5:
+            bld.edge(e, pa)
+            bld.edge(e, pb)
+        else:
+            bld.edge(e, pb)
+            bld.edge(e, pa)
+        if R.random() < 0.7:
+            dead = R.choice([pa, pb])
+            bld.blocks[dead - 1]["stmts"].append({"op": "assume", "c": {"e": {"k": 1, "t": []}, "r": "le"}} if R.random() < 0.5
+                                                 else {"op": "unreach"})
+        bld.edge(pa, a)
+        bld.edge(pb, b_)
+        if R.random() < 0.5:
+            bld.edge(a, b_)
+            bld.edge(b_, a)
+        else:
+            bld.edge(b_, a)
+            bld.edge(a, b_)
+        g = bld.guard()
+        gx = bld.block([{"op": "assume", "c": g}])
+        bld.edge(R.choice([a, b_]), gx)
+        bld.edge(gx, x)
+        entry, exit_ = e, x
     elif shape == "irreducible":
         e, a, b_, x = bld.block(body()), bld.block(body()), bld.block(body()), bld.block(body())
         bld.blocks[a - 1]["stmts"].append(bld.counter_step())
